@@ -589,7 +589,8 @@ def build_snapshot_action(tp_id: str, args: Dict[str, str], watches: List[str]) 
 
     condition = args[CONDITION] if CONDITION in args else None
     config = {
-        WATCHES: watches,
+        # a copy: the caller's list is the caller's, changing it later must not change this tracepoint
+        WATCHES: list(watches),
         FRAME_TYPE: args.get(FRAME_TYPE, SINGLE_FRAME_TYPE),
         STACK_TYPE: args.get(STACK_TYPE, STACK),
         FIRE_COUNT: args.get(FIRE_COUNT, '1'),
@@ -637,7 +638,7 @@ def build_metric_action(tp_id: str, args: Dict[str, str], metrics: List[MetricDe
 
     condition = args[CONDITION] if CONDITION in args else None
     return LocationAction(tp_id, condition, {
-        'metrics': metrics,
+        'metrics': list(metrics),
         FIRE_COUNT: args.get(FIRE_COUNT, '1'),
         FIRE_PERIOD: args.get(FIRE_PERIOD, '1000'),
     }, LocationAction.ActionType.Metric)
